@@ -4,6 +4,7 @@ C14 line-protocol driver:  `lake env lean --run Sc3Verif/C14/Driver.lean < ops`
   world (<latency> (desc <name> <keepgate> (<control> ...)) ...)
   event <t> (<(key value)> ...)         play one note event at logical time t
   pat <t> <epat>                        pattern.play() at logical time t
+  replay <t> (<(key value)> ...) (<dt> ...)   one event object played at t, t+dt1, ...
 Output: one line per OSC message `time cmd args…`, then `END <time reached> <died>`.
 -/
 import Sc3Verif.C13.Sexp
@@ -97,6 +98,18 @@ partial def loop (h out : IO.FS.Stream) (w : World) : IO Unit := do
       for m in ms do out.putStrLn (fmtMsg m)
       out.putStrLn s!"END {fmtRat t} {if raised then 1 else 0}"
       loop h out w'
+    | _, _ => out.putStrLn "parse-error"; loop h out w
+  else if l.startsWith "replay " then
+    let (t, rest) := splitHead (l.drop 7).toString
+    match parseRat t, readSx ("(" ++ rest ++ ")") with
+    | some t, some (Sx.node [ev, Sx.node dts]) =>
+      match sxEv ev, dts.mapM (fun (x : Sx) => match x with | Sx.atom a => parseRat a | _ => none) with
+      | some e, some ds =>
+        let (ms, w', t', died) := playTimes w e t ds
+        for m in ms do out.putStrLn (fmtMsg m)
+        out.putStrLn s!"END {fmtRat t'} {if died then 1 else 0}"
+        loop h out w'
+      | _, _ => out.putStrLn "parse-error"; loop h out w
     | _, _ => out.putStrLn "parse-error"; loop h out w
   else if l.startsWith "pat " then
     let (t, rest) := splitHead (l.drop 4).toString
